@@ -1,7 +1,7 @@
 """C05 Histogram counts and reverse indices partition the binned data."""
 import numpy as np
 
-from vlib import probe
+from vlib import gen, probe
 from vlib.probe import COL
 from vlib.refs import hist as rh
 
@@ -28,6 +28,8 @@ def cases(seed, tier):
     rng = np.random.default_rng([seed, 5])
     for i in range(n):
         yield {"family": FAMILIES[i % len(FAMILIES)], "sub": int(rng.integers(0, 2**31))}
+    for i in range(1 if tier == "quick" else 6):
+        yield {"family": "big", "sub": int(rng.integers(0, 2**31)), "first": i == 0, "cap": 2 ** 21 + 1 if tier == "quick" else None}
 
 
 def make(case):
@@ -273,7 +275,55 @@ def install():
     probe.instrument("esutil.stat.util:Binner.dohist", [_oracle_dohist])
 
 
+def run_big(case):
+    """one to a few million dyadic data (eighths), unit or dyadic bin size: counts against numpy's floor/bincount, the
+    reverse indices as a partition (vectorised), through histogram and Binner"""
+    import esutil.stat as st
+    rng = np.random.default_rng(case["sub"])
+    n = gen.big_size(rng, cap=case.get("cap"), first=case.get("first", False))
+    x = rng.integers(-4000, 4000, size=n) / 8.0
+    bs = float(rng.choice([1.0, 0.5, 2.0, 16.0]))
+    kw = {"binsize": bs}
+    if rng.random() < .5:
+        kw["min"] = float(rng.integers(-600, -100))
+    if rng.random() < .5:
+        kw["max"] = float(rng.integers(100, 600))
+    COL.sample({"family": "big", "n": n, "kw": kw}, limit=2)
+    lo = kw.get("min", float(x.min()))
+    hi = kw.get("max", float(x.max()))
+    inr = (x >= lo) & (x <= hi)
+    idx = np.floor((x - lo) / bs).astype(np.int64)            # exact: dyadic data, dyadic bin size and limits
+    nb = int(np.floor((hi - lo) / bs)) + 1
+    keep = inr & (idx >= 0) & (idx < nb)
+    exp = np.bincount(idx[keep], minlength=nb)
+    wit = {"n": n, "kw": kw}
+    res, e = probe.attempt(st.histogram, x, rev=True, **kw)
+    if e is not None:
+        COL.violation("C05.hist", "histogram of %d data raised %s: %s" % (n, type(e).__name__, str(e)[:120]), wit)
+        return
+    h, rev = np.asarray(res[0]), np.asarray(res[1])
+    bad = None
+    if h.shape != exp.shape or not np.array_equal(h, exp):
+        j = int(np.nonzero(h[:min(h.size, exp.size)] != exp[:min(h.size, exp.size)])[0][0]) if h.size and exp.size and (h[:min(h.size, exp.size)] != exp[:min(h.size, exp.size)]).any() else -1
+        bad = "counts of %d data differ from floor((x-min)/binsize) membership (sizes %d / %d, first differing bin %d)" % (n, h.size, exp.size, j)
+    else:
+        off = rev[:nb + 1]
+        body = rev[nb + 1:]
+        if off[0] != nb + 1 or off[-1] != rev.size or np.any(np.diff(off) != h) or body.size != keep.sum():
+            bad = "reverse-index offsets do not match the counts"
+        elif not np.array_equal(np.sort(body), np.nonzero(keep)[0]):
+            bad = "the reverse indices are not a permutation of the counted data"
+        elif not np.array_equal(idx[body], np.repeat(np.arange(nb), h)):
+            bad = "a reverse-index slice holds data of another bin"
+    if bad:
+        COL.violation("C05.hist", "big: " + bad, wit)
+    else:
+        COL.ok("C05.hist", ("big", int(np.log2(n)), bs, "min" in kw, "max" in kw))
+
+
 def run_case(case):
+    if case["family"] == "big":
+        return run_big(case)
     import esutil.stat as st
     import esutil.stat.util as su
     data, kw, dt = make(case)
